@@ -22,7 +22,7 @@ for i, a in enumerate(sys.argv):
         checks = sys.argv[i + 1].split(",")
     if a == "--tier":
         tier = sys.argv[i + 1]
-sfx = "" if which == "1" else "2"
+sfx = "" if which == "1" else which
 patch = os.path.join(outdir, "patch%s.diff" % sfx)
 demo = os.path.join(outdir, "demo%s_test.go" % sfx)
 dpath_txt = open(os.path.join(outdir, "demo%s_path.txt" % sfx)).read()
